@@ -123,6 +123,11 @@ def run_rt(spec, acc):
                 acc.count(f'rt_refused_as_required/{must}')
             else:
                 acc.count(f'rt_refused_allowed/{exc_key(exc)}')
+            if cap:
+                acc.violation('C07/rt/datagram-handed-to-send-although-the-'
+                              'call-raised',
+                              {'case': i, 'send': M.srepr(pristine),
+                               'context': ctx, 'exception': repr(exc)[:200]})
             return None
         w = {'case': i, 'send': M.srepr(pristine), 'context': ctx}
         if len(cap) != 1:
@@ -453,8 +458,6 @@ def run_rt(spec, acc):
                 tls.cap = None
                 mrecords.append((sid, mode, p0, p1, cap, exc))
                 time.sleep(0.0007)
-                if n % 10 == 0:
-                    AppClock.sched(0, lambda: None)    # keeps AppClock ticking
             stuck = sum(not e.is_set() for e in events)
             if stuck:
                 acc.count('rt_routines_not_finished_in_time', stuck)
